@@ -607,6 +607,24 @@ func EvalOn(p *Prog, f *Func, m DModel, args []dval, consts map[types.Object]str
 	return EvalOnX(p, f, m, args, consts, effectFree, nil)
 }
 
+// EvalExprOn evaluates a single expression of f (e.g. the condition guarding an
+// effect) with the given variables bound to abstract values.
+func EvalExprOn(p *Prog, f *Func, e ast.Expr, m DModel, bind map[types.Object]DVal, consts map[types.Object]string, opaque map[string]string) (DResult, string) {
+	d := &DEval{Prog: p, Model: m, Consts: consts, Opaque: opaque}
+	env := map[types.Object]dval{}
+	for o, v := range bind {
+		env[o] = v
+	}
+	v, panicked := d.expr(f, e, env)
+	if d.Undecided != "" {
+		return DResult{}, d.Undecided
+	}
+	if panicked {
+		return DResult{Panicked: true}, ""
+	}
+	return DResult{Value: d.scal(v)}, d.Undecided
+}
+
 // EvalOnX is EvalOn with opaque callees (callee name -> model path of its result).
 func EvalOnX(p *Prog, f *Func, m DModel, args []dval, consts map[types.Object]string, effectFree []string, opaque map[string]string) (DResult, string) {
 	d := &DEval{Prog: p, Model: m, Consts: consts, EffectFree: effectFree, Opaque: opaque}
